@@ -367,6 +367,25 @@ example : CachePy.stepNode { pc := .l138, op := .appendNext false, next := .l137
             { initShared [7] (some .ZeroDivisionError) with cache := [7], genPos := 1, lock := some 0 } 0 { q := .iterAll, pc := .l138, i := 0, j := 1 }
           ≠ stepIter { initShared [7] (some .ZeroDivisionError) with cache := [7], genPos := 1, lock := some 0 } 0 { q := .iterAll, pc := .l138, i := 0, j := 1 } := by decide
 
+/-- **gen_restartable_eq_model.** `_restartable` as translated from the source is the generator the machine assumes on line 138
+    (`Cache.step138`): from a state in step with the cache (`inner = pos`, alive) one `__next__()` gives the next value of `src`
+    and advances both counters; at the end of `src` it gives StopIteration when the underlying generator ends normally, and when it
+    raises E it raises E and is AGAIN in step at the same position — so the next request raises E again (what `Shared.endErr`
+    means), instead of the dead generator's StopIteration (the old defect: see the last `example`). -/
+theorem gen_restartable_eq_model (src : List Int) (e : Option Py.PyErr) (pos : Nat) :
+    CachePy.runRestartNext Gen.restartableProgram src e { pos := pos, inner := pos } =
+      some (match src[pos]? with
+            | some x => (.value x, { pos := pos + 1, inner := pos + 1 })
+            | none => match e with
+              | none => (.stop, { pos := pos, inner := pos })
+              | some err => (.raise_ err, { pos := pos, inner := pos })) := by
+  cases h : src[pos]? <;> cases e <;> simp [CachePy.runRestartNext, Gen.restartableProgram, h]
+
+-- without the restart the generator is dead after E: its next answer is StopIteration
+example : (CachePy.runRestartNext { Gen.restartableProgram with restartsAtPos := false } [7] (some .ZeroDivisionError) { pos := 1, inner := 1 }).bind
+            (fun r => CachePy.runRestartNext { Gen.restartableProgram with restartsAtPos := false } [7] (some .ZeroDivisionError) r.2)
+          = some (.stop, { pos := 1, inner := 1, dead := true }) := by decide
+
 /-! ### the underlying generator raises: cached = uncached (D-C11-genraise repaired in /repo) -/
 
 /-- **genraise_history** (replaces the negation theorem `genraise_cached_differs` of the unrepaired code).
